@@ -284,8 +284,9 @@ def amountGap (p : Posting) (al : AlignmentInfo) (indent : Bytes) (align : Bool)
     max (al.accountCol - runeCount (postingHead p indent)) minSpaces
   else minSpaces
 
+/-- `" @@ "` or `" @ "`, then the cost amount. -/
 def costText (c : Cost) (formats : Option Formats) (content : Bytes) : Bytes :=
-  (if c.isTotal then [32, 64, 64, 32] else [32, 64, 32])   -- " @@ " / " @ " ++ writeAmountWithSign c.amount formats content
+  (if c.isTotal then [32, 64, 64, 32] else [32, 64, 32]) ++ writeAmountWithSign c.amount formats content
 
 /-- Head, gap, amount and cost: everything written before the balance assertion. -/
 def postingUpToCost (p : Posting) (al : AlignmentInfo) (formats : Option Formats) (indent : Bytes)
@@ -307,7 +308,10 @@ def trimRightCR : Bytes → Bytes
     let t := trimRightCR bs
     if t.isEmpty && isBlankOrCR b then [] else b :: t
 
-def commentText (c : Bytes) : Bytes := if !c.isEmpty then [32, 32, 59] ++ trimRightCR c else []   -- "  ;"
+/-- `"  ;"` and the comment without trailing blanks/CR. -/
+def commentText (c : Bytes) : Bytes :=
+  let t := trimRightCR c
+  if !t.isEmpty then [32, 32, 59] ++ t else []
 
 /-- `formatPostingWithOpts`. -/
 def formatPostingWithOpts (p : Posting) (al : AlignmentInfo) (formats : Option Formats)
